@@ -442,7 +442,12 @@ func (s *scope) resolve(key instanceKey, descriptor *Descriptor) (any, error) {
 
 		// Only one goroutine constructs a given scoped service; the others wait
 		// and then find it in the cache
-		lock := s.creationLock(key)
+		lockKey := key
+		if len(descriptor.siblings) > 1 {
+			first := descriptor.siblings[0]
+			lockKey = instanceKey{Type: first.Type, Key: first.Key, Group: first.Group}
+		}
+		lock := s.creationLock(lockKey)
 		lock.Lock()
 		defer lock.Unlock()
 
@@ -563,107 +568,10 @@ func (s *scope) createInstance(descriptor *Descriptor) (any, error) {
 		}
 	}
 
-	// First error reported by setInstance for one of several outputs
-	var setErr error
-
-	// Handle result objects (Out structs)
-	if info.IsResultObject {
-		processor := reflection.NewResultObjectProcessor(s.rootProvider.analyzer)
-		registrations, err := processor.ProcessResultObject(results[0], info.Type.Out(0))
-		if err != nil {
-			return nil, &ReflectionAnalysisError{
-				Constructor: descriptor.Constructor.Interface(),
-				Operation:   "process result object",
-				Cause:       err,
-			}
-		}
-
-		// Find the primary service to return
-		var primaryService any
-		for _, reg := range registrations {
-			value := reg.Value
-
-			// Convert empty string key to nil for consistent lookup
-			var regKey any
-			if reg.Key != "" {
-				regKey = reg.Key
-			}
-
-			if reg.Type == descriptor.Type && regKey == descriptor.Key {
-				primaryService = value
-			}
-
-			regDescriptor := s.rootProvider.findDescriptor(reg.Type, regKey)
-			if regDescriptor == nil {
-				return nil, &ResolutionError{
-					ServiceType: reg.Type,
-					ServiceKey:  regKey,
-					Cause:       fmt.Errorf("no descriptor found for return type %v", reg.Type),
-				}
-			}
-
-			key := instanceKey{
-				Type:  reg.Type,
-				Key:   regKey,
-				Group: reg.Group,
-			}
-
-			// Keep going on error so that every output is handed over (and disposed)
-			if err := s.setInstance(regDescriptor, key, value); err != nil && setErr == nil {
-				setErr = err
-			}
-		}
-
-		if setErr != nil {
-			return nil, setErr
-		}
-
-		if primaryService == nil {
-			return nil, &ValidationError{
-				ServiceType: descriptor.Type,
-				Cause:       fmt.Errorf("result object produced no services"),
-			}
-		}
-
-		return primaryService, nil
-	}
-
-	// Handle multi-return constructors
-	if descriptor.MultiReturnIndex >= 0 {
-		for _, ret := range info.Returns {
-			if ret.IsError {
-				continue
-			}
-
-			value := results[ret.Index].Interface()
-
-			// Find the descriptor for this return type
-			serviceDescriptor := s.rootProvider.findDescriptor(ret.Type, nil)
-			if serviceDescriptor == nil {
-				return nil, &ResolutionError{
-					ServiceType: ret.Type,
-					ServiceKey:  nil,
-					Cause:       fmt.Errorf("no descriptor found for return type %v", ret.Type),
-				}
-			}
-
-			key := instanceKey{
-				Type:  ret.Type,
-				Key:   serviceDescriptor.Key,
-				Group: serviceDescriptor.Group,
-			}
-
-			// Keep going on error so that every output is handed over (and disposed)
-			if err := s.setInstance(serviceDescriptor, key, value); err != nil && setErr == nil {
-				setErr = err
-			}
-		}
-
-		if setErr != nil {
-			return nil, setErr
-		}
-
-		return results[descriptor.MultiReturnIndex].Interface(), nil
+	// One invocation serves every registration made by the same Add call (result object
+	// fields, multiple returns, several As aliases)
+	if info.IsResultObject || len(descriptor.siblings) > 1 {
+		return s.storeOutputs(descriptor, info, results)
 	}
 
 	instance := results[0].Interface()
@@ -684,6 +592,94 @@ func (s *scope) createInstance(descriptor *Descriptor) (any, error) {
 		return nil, err
 	}
 	return instance, nil
+}
+
+// storeOutputs hands every output of one constructor invocation to the registration it
+// belongs to and returns the output the given descriptor stands for.
+func (s *scope) storeOutputs(descriptor *Descriptor, info *reflection.ConstructorInfo, results []reflect.Value) (any, error) {
+	siblings := descriptor.siblings
+	if len(siblings) == 0 {
+		siblings = []*Descriptor{descriptor}
+	}
+
+	var requested any
+	var setErr error
+	for _, sibling := range siblings {
+		value, ok, err := outputFor(sibling, info, results)
+		if err != nil {
+			return nil, &ReflectionAnalysisError{
+				Constructor: descriptor.Constructor.Interface(),
+				Operation:   "process constructor outputs",
+				Cause:       err,
+			}
+		}
+		if !ok {
+			continue // nil result object field
+		}
+
+		if sibling == descriptor {
+			requested = value
+		} else if !s.rootProvider.isRegistered(sibling) {
+			continue // removed from the collection after the Add call
+		}
+
+		key := instanceKey{Type: sibling.Type, Key: sibling.Key, Group: sibling.Group}
+
+		// Keep going on error so that every output is handed over (and disposed)
+		if err := s.setInstance(sibling, key, value); err != nil && setErr == nil {
+			setErr = err
+		}
+	}
+
+	if setErr != nil {
+		return nil, setErr
+	}
+
+	if requested == nil {
+		return nil, &ValidationError{
+			ServiceType: descriptor.Type,
+			Cause:       fmt.Errorf("constructor produced no instance for this service"),
+		}
+	}
+
+	return requested, nil
+}
+
+// outputFor selects the constructor output a descriptor stands for. ok is false when the
+// output is a nil field of a result object.
+func outputFor(descriptor *Descriptor, info *reflection.ConstructorInfo, results []reflect.Value) (value any, ok bool, err error) {
+	switch {
+	case info.IsResultObject:
+		object := results[0]
+		if object.Kind() == reflect.Pointer {
+			if object.IsNil() {
+				return nil, false, fmt.Errorf("result object is nil")
+			}
+			object = object.Elem()
+		}
+		if object.Kind() != reflect.Struct || descriptor.resultFieldIndex >= object.NumField() {
+			return nil, false, fmt.Errorf("result must be struct, got %v", object.Kind())
+		}
+
+		field := object.Field(descriptor.resultFieldIndex)
+		switch field.Kind() {
+		case reflect.Pointer, reflect.Interface, reflect.Slice, reflect.Map, reflect.Chan, reflect.Func:
+			if field.IsNil() {
+				return nil, false, nil
+			}
+		}
+		return field.Interface(), true, nil
+
+	case descriptor.MultiReturnIndex >= 0:
+		return results[descriptor.MultiReturnIndex].Interface(), true, nil
+
+	default:
+		instance := results[0].Interface()
+		if instance == nil {
+			return nil, false, fmt.Errorf("constructor returned nil instance")
+		}
+		return instance, true, nil
+	}
 }
 
 // FromContext retrieves a Scope from the context.
